@@ -170,9 +170,7 @@ func c01AluSweep(r *rig.Run) int64 {
 					dmax = 1
 				}
 				for d := 0; d < dmax; d++ {
-					if dflag == 1 && !(bcd(a) && bcd(d)) {
-						continue
-					}
+					_ = bcd // decimal arithmetic on non-BCD operands: A/N/Z/C are left open by the model, everything else is still judged
 					for carry := 0; carry < 2; carry++ {
 						p := byte(0x30) | byte(carry)
 						if dflag == 1 {
